@@ -209,7 +209,7 @@ Section Entries.
                               | KConvexSpheropolygon => 6 | KPolyhedron => 7 | KConvexPolyhedron => 8 | KConvexSpheropolyhedron => 9 end)]
     end.
 
-  (* 70: mesh-file parsers on token lines. sc = [format: 0 OBJ, 1 OFF, 2 PLY, 3 VTK, 4 X3D coordIndex];
+  (* 70: mesh-file parsers on token lines. sc = [format: 0 OBJ, 1 OFF, 2 PLY, 3 VTK, 4 X3D coordIndex, 5 STL (then sc = [5; nv])];
      idx = lines, tokens encoded as 4n (N n), 4id+1 (F id), 4c+2 (K c), 3 (-1).
      output: [0] (rejected) | [1; nv; f0 corners..., -1, f1 corners..., -1, ...]  (X3D: [1; 0; face sizes...]) *)
   Definition dec_tok (n : nat) : tok :=
@@ -228,6 +228,9 @@ Section Entries.
     | 1%Z => enc_mesh (parse_off ls)
     | 2%Z => enc_mesh (parse_ply ls)
     | 3%Z => enc_mesh (parse_vtk ls)
+    | 5%Z => match parse_stl (Z.to_nat (Qnum (nth 1 sc 0))) ls with      (* STL: sc = [5; nv]; output [1; a b c a b c ...] *)
+             | Some ts => [1] ++ flat_map (fun t => [n2q (fst (fst t)); n2q (snd (fst t)); n2q (snd t)]) ts
+             | None => [0] end
     | _ => match ls with
            | [l] => match x3d_parse (S (length l)) 0 0 l with
                     | Some sizes => [1; 0] ++ map n2q sizes
